@@ -20,6 +20,18 @@ theorem geo_valid (G : Nat) (hG : 0 < G) : (geo G).Valid := ⟨hG, Nat.one_pos, 
 theorem geo_total (G : Nat) : (geo G).total = C08.nwg G 64 := by
   simp [C08.Geo.total, C08.Geo.nx, C08.Geo.ny, C08.Geo.nz, geo, C08.nwg]
 
+theorem allWGs_geo (G : Nat) :
+    C08.allWGs (geo G) = (List.range (C08.nwg G 64)).map fun k => ⟨(k, 0, 0), (min (G - k * 64) 64, 1, 1)⟩ := by
+  unfold C08.allWGs
+  rw [geo_total]
+  apply List.map_congr_left
+  intro k hk
+  have hk' : k < C08.nwg G 64 := List.mem_range.mp hk
+  have hnx : (geo G).nx = C08.nwg G 64 := rfl
+  have hny : (geo G).ny = 1 := by simp [C08.Geo.ny, geo, C08.nwg]
+  simp only [C08.wgAt, C08.coordOf, C08.sizesOf, hnx, hny, Nat.mod_eq_of_lt hk', Nat.div_eq_of_lt hk']
+  simp [geo]
+
 /-- the work-groups the grid builder produces (C08 `wgs_enumerate`): `(k,0,0)` with the clipped size -/
 theorem wgList_geo (G : Nat) (hG : 0 < G) :
     wgList (geo G) = (List.range (C08.nwg G 64)).map fun k => ⟨(k, 0, 0), (min (G - k * 64) 64, 1, 1)⟩ := by
@@ -31,15 +43,7 @@ theorem wgList_geo (G : Nat) (hG : 0 < G) :
   have hf : (C08.allWGs (geo G)).filter (fun w => (fun _ => true) w.id) = C08.allWGs (geo G) :=
     List.filter_eq_self.mpr (fun _ _ => rfl)
   rw [hf, List.take_of_length_le (by simp [C08.allWGs])]
-  unfold C08.allWGs
-  rw [geo_total]
-  apply List.map_congr_left
-  intro k hk
-  have hk' : k < C08.nwg G 64 := List.mem_range.mp hk
-  have hnx : (geo G).nx = C08.nwg G 64 := rfl
-  have hny : (geo G).ny = 1 := by simp [C08.Geo.ny, geo, C08.nwg]
-  simp only [C08.wgAt, C08.coordOf, C08.sizesOf, hnx, hny, Nat.mod_eq_of_lt hk', Nat.div_eq_of_lt hk']
-  simp [geo]
+  exact allWGs_geo G
 
 end C01.Emu.Copy
 namespace C01.Emu.Copy
@@ -142,47 +146,161 @@ theorem wave0_rs (c : Cfg) (ka pk : List Nat) (k s i : Nat) :
   have e5 : ¬ 5 = i := fun e => h5 e.symm
   have e4 : ¬ 4 = i := fun e => h4 e.symm
   simp only [h8, h7, h6, h5, h4, e8, e7, e6, e5, e4, false_and, if_false]
-  simp [Array.getD_eq_getD_getElem?]
+  rw [Array.getD_eq_getD_getElem?, Array.getElem?_replicate]
+  split <;> rfl
+
+theorem wave0_pc (c : Cfg) (ka pk : List Nat) (k s : Nat) : (wave0 c ka pk k s).st.pc = c.co := Nat.add_zero _
+theorem wave0_exec (c : Cfg) (ka pk : List Nat) (k s : Nat) : (wave0 c ka pk k s).st.exec = 2 ^ s - 1 := rfl
+theorem wave0_completed (c : Cfg) (ka pk : List Nat) (k s : Nat) : (wave0 c ka pk k s).completed = false := rfl
+
+theorem wave0_rv0 (c : Cfg) (ka pk : List Nat) (k s lane : Nat) (hl : lane < 64) :
+    (wave0 c ka pk k s).st.rv 0 lane = lane := by
+  unfold wave0
+  rw [initWave_rv0 _ _ _ lane hl]
+  show (C08.laneRegs false 0 (C08.decodeId 64 1 (0 + lane))).1 = lane
+  simp only [C08.laneRegs, C08.decodeId, Bool.false_eq_true, if_false]
+  omega
 
 theorem wave0_tracks (c : Cfg) (ka pk : List Nat) (k s : Nat) (m l : Mem)
     (hpa : c.pa < 2 ^ 64) (hka : c.ka < 2 ^ 64) (hk : k < 2 ^ 32) :
     ∃ t, Tracks { (wave0 c ka pk k s).st with mem := m, lds := l } t ∧ t.pc = c.co ∧ t.exec = 2 ^ s - 1 ∧
       t.s4 = c.pa % 2 ^ 32 ∧ t.s5 = c.pa / 2 ^ 32 ∧ t.s6 = c.ka % 2 ^ 32 ∧ t.s7 = c.ka / 2 ^ 32 ∧ t.s8 = k ∧
       (∀ lane, lane < 64 → t.v0 lane = lane) ∧ t.mem = get m := by
-  let w := wave0 c ka pk k s
-  refine ⟨{ pc := c.co, exec := 2 ^ s - 1, vcc := 0, s0 := w.st.rs 0, s1 := w.st.rs 1, s2 := w.st.rs 2, s3 := w.st.rs 3,
+  have hpc := wave0_pc c ka pk k s
+  have hexec := wave0_exec c ka pk k s
+  have hssz : (wave0 c ka pk k s).st.s.size = 128 := initWave_ssz _ _ _
+  have hvsz : (wave0 c ka pk k s).st.v.size = 16384 := initWave_vsz _ _ _
+  have hrs := wave0_rs c ka pk k s
+  have hrv0 := wave0_rv0 c ka pk k s
+  generalize wave0 c ka pk k s = w at hpc hexec hssz hvsz hrs hrv0 ⊢
+  refine ⟨{ pc := c.co, exec := 2 ^ s - 1, vcc := w.st.vcc, s0 := w.st.rs 0, s1 := w.st.rs 1, s2 := w.st.rs 2, s3 := w.st.rs 3,
             s4 := w.st.rs 4, s5 := w.st.rs 5, s6 := w.st.rs 6, s7 := w.st.rs 7, s8 := w.st.rs 8,
             v0 := w.st.rv 0, v1 := w.st.rv 1, v2 := w.st.rv 2, v3 := w.st.rv 3, mem := get m }, ?_, rfl, rfl, ?_, ?_, ?_, ?_, ?_, ?_, rfl⟩
-  · refine ⟨{ pc := c.co, exec := 2 ^ s - 1, vcc := 0, rs := w.st.rs, rv := w.st.rv, mem := get m },
-      ⟨initWave_ssz _ _ _, initWave_vsz _ _ _, Nat.add_zero _, rfl, rfl, fun _ _ => rfl, fun _ _ _ _ => rfl, fun _ => rfl⟩,
+  · refine ⟨{ pc := c.co, exec := 2 ^ s - 1, vcc := w.st.vcc, rs := w.st.rs, rv := w.st.rv, mem := get m },
+      ⟨hssz, hvsz, hpc, hexec, rfl, fun _ _ => rfl, fun _ _ _ _ => rfl, fun _ => rfl⟩,
       rfl, rfl, rfl, ?_, ?_, fun _ => rfl⟩
     · intro i hi
       have : i = 0 ∨ i = 1 ∨ i = 2 ∨ i = 3 ∨ i = 4 ∨ i = 5 ∨ i = 6 ∨ i = 7 ∨ i = 8 := by omega
       rcases this with rfl | rfl | rfl | rfl | rfl | rfl | rfl | rfl | rfl <;> rfl
     · intro r lane hr hl
       have : r = 0 ∨ r = 1 ∨ r = 2 ∨ r = 3 := by omega
-      rcases this with rfl | rfl | rfl | rfl <;> rfl
+      rcases this with rfl | rfl | rfl | rfl
+      · rw [T.v_0]
+      · rw [T.v_1]
+      · rw [T.v_2]
+      · rw [T.v_3]
   · show w.st.rs 4 = _
-    rw [wave0_rs]; rfl
+    rw [hrs]; rfl
   · show w.st.rs 5 = _
-    rw [wave0_rs]
+    rw [hrs]
     simp only [show ¬ (5 : Nat) = 8 by decide, show ¬ (5 : Nat) = 7 by decide, show ¬ (5 : Nat) = 6 by decide, if_false, if_true]
     exact Nat.mod_eq_of_lt (by unfold two32; omega)
   · show w.st.rs 6 = _
-    rw [wave0_rs]; rfl
+    rw [hrs]; rfl
   · show w.st.rs 7 = _
-    rw [wave0_rs]
+    rw [hrs]
     simp only [show ¬ (7 : Nat) = 8 by decide, if_false, if_true]
     exact Nat.mod_eq_of_lt (by unfold two32; omega)
   · show w.st.rs 8 = _
-    rw [wave0_rs]
+    rw [hrs]
     simp only [if_true]
     exact Nat.mod_eq_of_lt (by unfold two32; omega)
-  · intro lane hl
-    show w.st.rv 0 lane = lane
-    rw [initWave_rv0 _ _ _ lane hl]
-    show (C08.laneRegs false 0 (C08.decodeId 64 1 (0 + lane))).1 = lane
-    simp only [C08.laneRegs, C08.decodeId, Bool.false_eq_true, if_false]
-    omega
+  · exact hrv0
+
+/-- admissible memories: agree with the launch image outside the destination range -/
+def Ok (c : Cfg) (f0 : Nat → Nat) (m : Mem) : Prop := Agree c f0 (get m)
+
+theorem applyWrites_not_key (ps : List (Nat × Nat)) (f : Nat → Nat) (a : Nat) (h : ∀ p ∈ ps, p.1 ≠ a) :
+    applyWrites ps f a = f a := by
+  induction ps generalizing f with
+  | nil => rfl
+  | cons p ps ih =>
+    show applyWrites ps (fun x => if x = p.1 then p.2 else f x) a = f a
+    rw [ih _ (fun q hq => h q (List.mem_cons_of_mem _ hq))]
+    have : ¬ a = p.1 := fun e => h p (List.mem_cons_self ..) e.symm
+    simp [this]
+
+theorem testBit_low (s l : Nat) : (2 ^ s - 1).testBit l = decide (l < s) := Nat.testBit_two_pow_sub_one s l
+
+theorem low_mask_lt (s : Nat) (hs : s ≤ 64) : 2 ^ s - 1 < 18446744073709551616 := by
+  have h1 : 2 ^ s ≤ 2 ^ 64 := Nat.pow_le_pow_right (by decide) hs
+  have h2 : 0 < 2 ^ s := Nat.pow_pos (by decide)
+  have h3 : (2 : Nat) ^ 64 = 18446744073709551616 := rfl
+  omega
+
+theorem storePairs_keys (a x : Nat) (p : Nat × Nat) (h : p ∈ storePairs a x) : a ≤ p.1 ∧ p.1 < a + 4 := by
+  simp only [storePairs, List.mem_cons, List.mem_nil_iff, or_false] at h
+  rcases h with rfl | rfl | rfl | rfl <;> (constructor <;> simp only <;> omega)
+
+/-- lanes of the wavefront that store: enabled and in range -/
+theorem mem_exec_lanes (c : Cfg) (k s l : Nat) (hs : s ≤ 64) :
+    l ∈ lanesOf (execMask c k (2 ^ s - 1)) ↔ l < s ∧ 64 * k + l < c.N := by
+  rw [mem_lanesOf]
+  constructor
+  · rintro ⟨hl, hb⟩
+    rw [execMask_bit c k _ l hl, testBit_low] at hb
+    simpa using hb
+  · rintro ⟨h1, h2⟩
+    have hl : l < 64 := by omega
+    refine ⟨hl, ?_⟩
+    rw [execMask_bit c k _ l hl, testBit_low]
+    simp [h1, h2]
+
+theorem wavePairs_keys (c : Cfg) (m : Nat → Nat) (k s : Nat) (hs : s ≤ 64) (hkG : 64 * k + s ≤ c.G)
+    (p : Nat × Nat) (h : p ∈ wavePairs c m k (2 ^ s - 1)) : c.inDst p.1 := by
+  unfold wavePairs at h
+  obtain ⟨l, hl, hp⟩ := List.mem_flatMap.mp h
+  obtain ⟨h1, h2⟩ := (mem_exec_lanes c k s l hs).mp hl
+  obtain ⟨h3, h4⟩ := storePairs_keys _ _ p hp
+  unfold Cfg.inDst Cfg.K
+  constructor <;> omega
+
+theorem wavePairs_congr (c : Cfg) (hv : c.Valid) (f0 m : Nat → Nat) (hag : Agree c f0 m) (k s : Nat) (hs : s ≤ 64)
+    (hkG : 64 * k + s ≤ c.G) : wavePairs c m k (2 ^ s - 1) = wavePairs c f0 k (2 ^ s - 1) := by
+  unfold wavePairs
+  apply flatMap_congr'
+  intro l hl
+  obtain ⟨h1, h2⟩ := (mem_exec_lanes c k s l hs).mp hl
+  rw [rd32_agree c f0 m hag]
+  intro j hj hin
+  refine hv.dSrc _ hin ⟨by omega, ?_⟩
+  unfold Cfg.K
+  omega
+
+theorem fuel_bound (k s G : Nat) (h : 64 * k + s ≤ G) (hs : 1 ≤ s) (hG : G ≤ 2 ^ 31) :
+    64 * k + 64 ≤ 2 ^ 31 ∧ k < 2 ^ 32 := by omega
+
+/-- the wavefront of work-group `k` (row of `s` items) has a write description -/
+theorem wave_spec (c : Cfg) (hv : c.Valid) (f0 : Nat → Nat) (himg : Img c f0) (ka pk : List Nat) (k s : Nat)
+    (hs1 : 1 ≤ s) (hs64 : s ≤ 64) (hkG : 64 * k + s ≤ c.G) (fuel : Nat) :
+    WaveSpec P c.co (fuel + 27) (Ok c f0) (wave0 c ka pk k s) (wavePairs c f0 k (2 ^ s - 1)) := by
+  intro m l hok
+  obtain ⟨hn, hk32⟩ := fuel_bound k s c.G hkG hs1 hv.g31
+  obtain ⟨t, ht, hpc, hexec, h4, h5, h6, h7, h8, hv0, hmem⟩ := wave0_tracks c ka pk k s m l
+    (by have := hv.paEnd; omega) (by have := hv.kaEnd; omega) hk32
+  have hag : Agree c f0 t.mem := by rw [hmem]; exact hok
+  obtain ⟨st', hrun, hmem'⟩ := wave_run c hv f0 himg k (2 ^ s - 1) hn (low_mask_lt s hs64)
+    (by
+      intro lane hl hb
+      rw [testBit_low] at hb
+      have : lane < s := by simpa using hb
+      omega)
+    _ t ht hpc hexec h4 h5 h6 h7 h8 hv0 hag fuel
+  have hget : get st'.mem = applyWrites (wavePairs c f0 k (2 ^ s - 1)) (get m) := by
+    funext a
+    have := hmem' a
+    rw [wavePairs_congr c hv f0 t.mem hag k s hs64 hkG, hmem] at this
+    exact this
+  refine ⟨Wave.mk { st' with mem := [], lds := [] } (Ctl.endpgm == Ctl.endpgm) (Ctl.endpgm == Ctl.barrier),
+    st'.mem, st'.lds, ?_, ?_, hget, ?_⟩
+  · unfold runWave
+    rw [wave0_completed, hrun]
+    rfl
+  · rfl
+  · intro a ha
+    show get st'.mem a = f0 a
+    rw [hget, applyWrites_not_key _ _ _ (fun p hp e => ha (by rw [← e]; exact wavePairs_keys c f0 k s hs64 hkG p hp))]
+    exact hok a ha
+
 
 end C01.Emu.Copy
